@@ -164,7 +164,7 @@ def compare(case, r):
     return None, None
 
 
-def model_streams(chk, count=None):
+def model_streams(chk, count=None, mutate=False):
     """Valid-by-construction streams for C03: the OCaml generator (ocaml/codec_gen.ml) chooses every
     syntactic alternative of the frame grammar independently and derives residuals from arbitrary
     target PCM; the extracted Coq writer serialises; only trees accepted by the extracted Coq
@@ -176,14 +176,18 @@ def model_streams(chk, count=None):
     n = count or (400 if chk.tier == "thorough" else 90)
     reqs = []
     shards = 8
+    m1, m2 = ("mutate", "mutate_subset") if mutate else (None, "subset")
     for k in range(shards):
-        reqs.append({"kind": "gen", "seed": chk.seed * 1000 + k, "count": max(1, n * 2 // (3 * shards))})
-        reqs.append({"kind": "gen", "seed": chk.seed * 1000 + k, "count": max(1, n // (3 * shards)), "mode": "subset"})
+        r1 = {"kind": "gen", "seed": chk.seed * 1000 + k, "count": max(1, n * 2 // (3 * shards))}
+        if m1:
+            r1["mode"] = m1
+        reqs.append(r1)
+        reqs.append({"kind": "gen", "seed": chk.seed * 1000 + k, "count": max(1, n // (3 * shards)), "mode": m2})
     import concurrent.futures
 
     def work(req):
         rc, out = sh("ulimit -s unlimited 2>/dev/null || ulimit -s 1000000; exec %s" % exe, stdin=json.dumps(req) + "\n", timeout=1500)
-        return [json.loads(l) for l in out.split("\n") if l.startswith('{"id"')]
+        return [d for d in (json.loads(l) for l in out.split("\n") if l.startswith("{")) if "id" in d]
 
     res = []
     with concurrent.futures.ThreadPoolExecutor(max_workers=vlib.NCPU) as ex:
@@ -195,3 +199,59 @@ def model_streams(chk, count=None):
         r["kind"] = k[0]
         r["md5"] = k[1] if len(k) > 1 else ""
     return res
+
+
+def run_mutants(chk, profiles=("release",), count=None):
+    """Checksum-valid MALFORMED streams: a valid tree from the generator with one field pushed to a
+    reserved / illegal value (negative LPC shift, precision 16, reserved FIXED order, coding method 2-3,
+    wrong partition order, excess wasted bits, reserved header codes, STREAMINFO mismatches), serialised
+    by the extracted Coq writer (CRCs recomputed).  The real readers (harness bin c03 --stdin) and the
+    model decoder must agree on every one; a frame the model rejects and the implementation decodes
+    silently is reported as must-reject-accepted:<mutation>.  Returns a stats dict."""
+    muts = model_streams(chk, count=count or (600 if chk.tier == "thorough" else 160), mutate=True)
+    stats = {"inputs": len(muts), "by_mutation": {}, "disagreements": 0, "model_rejects": 0}
+    if not muts:
+        return stats
+    by_id = {m["id"]: m for m in muts}
+    for m in muts:
+        stats["by_mutation"][m["mutation"]] = stats["by_mutation"].get(m["mutation"], 0) + 1
+    for prof in profiles:
+        ok, binp, out = vlib.cargo_build(os.path.join(VERIF, "harness"), "c03", prof)
+        if not ok:
+            chk.broken_tie("harness-build:c03", out)
+            return stats
+        data = "\n".join(json.dumps({"id": m["id"], "bytes": m["bytes"], "kind": m["kind"]}) for m in muts) + "\n"
+        rc, o = sh([binp, "--stdin"], stdin=data, timeout=1500)
+        cases = []
+        for ln in o.splitlines():
+            if ln.startswith("{"):
+                try:
+                    d = json.loads(ln)
+                except ValueError:
+                    continue
+                if d.get("t") == "case" and d.get("id") in by_id:
+                    cases.append(d)
+                elif d.get("t") == "viol":
+                    # the runner's cross-reader consistency check presumes a valid stream: on a malformed
+                    # one the byte readers truncate out-of-range samples to the declared width, by design
+                    if d.get("key", "").startswith("readers-disagree"):
+                        stats["out_of_range_sample_streams"] = stats.get("out_of_range_sample_streams", 0) + 1
+                        continue
+                    chk.violation("mutants:" + d.get("key", "?"), d.get("desc", ""), {k: d[k] for k in d if k != "t"})
+        for kind in ("dec_stream", "dec_subset"):
+            ks = [c for c in cases if c["kind"] == kind]
+            res = run_model(chk, kind, ks)
+            if res is None:
+                return stats
+            for c, r in zip(ks, res):
+                m = by_id[c["id"]]
+                dis, note = compare(c, r)
+                if r.get("end", "").startswith("err"):
+                    stats["model_rejects"] += 1
+                if dis:
+                    stats["disagreements"] += 1
+                    silent = r.get("end", "").startswith("err") and (c["end"] == "eof" or (kind == "dec_subset" and len(c.get("frames", [])) > len(r.get("frames", []))))
+                    key = ("must-reject-accepted:" if silent else "correspondence:mutants:") + m["mutation"]
+                    chk.violation(key, "checksum-valid malformed stream (%s, %s build): implementation %s, model %s — %s" % (
+                        m["mutation"], prof, c["end"], r.get("end"), dis), {"bytes": m["bytes"], "mutation": m["mutation"], "impl": c["end"], "model": r.get("end")})
+    return stats
